@@ -316,6 +316,12 @@ def cases(tier, seed, prop):
                 if '\n\n' in ps_ or '{\n' in ps_: (c.get('options') or {}).pop('output.indent', None)      # blank text lines are padded with blanks: keep the indentation unit (a tab) distinguishable
                 out.append({'seq': seq, 'c': c, 'g': 'random'})
         if prop == 'C15':
+            # aliases whose definitions branch: the children written on the alias go into the deepest LAST element, at its depth
+            oa15 = dict(o12, names=['card', 'wrap', 'pair2', 'solo', 'p', 'b', 'ul', 'li', 'span'], p_noname=0, p_attr=0, p_text=.1, p_void_child=0)
+            for _ in range(n // 10):
+                seq_ = mk.gen_seq(rnd, oa15, [rnd.randint(2, 6)], 1)
+                tidy_C13(seq_)
+                out.append({'seq': seq_, 'c': {'syntax': rnd.choice(['haml', 'pug', 'slim']), 'snippets': {k: v for k, v in mk.ALIAS_SNIPPETS.items() if k != 'note'}}, 'alias': 1, 'g': 'alias'})
             many = 'p' + ''.join('.c%d' % i for i in range(12))
             for sy in ('pug', 'haml', 'slim'):
                 pre_ = '%' if sy == 'haml' else ''
@@ -1130,6 +1136,7 @@ def oracle_C15(case, o):
     opt = Config(mkcfg(case['c'])).options
     sy = case['c']['syntax']; ind = opt.get('output.indent'); nl = opt.get('output.newline')
     forest = mk.unroll(mk.flat(case['seq']))
+    if case.get('alias'): forest = mk.apply_alias(forest)
     mk.implicit_names(forest, None, inline_doc(case['c']))
     TAGCASE[0] = opt.get('output.tagCase') or ''
     want = lines_of(forest, sy, 0, [])
